@@ -157,6 +157,9 @@ pub fn check(c: &Case) -> Verdict {
     if c.indent_size == 0 {
         v.classes.push("width-0");
     }
+    if c.sink.0 & 0x80 != 0 {
+        v.classes.push("async-sink-with-partial-vectored-writes");
+    }
     v
 }
 
@@ -187,7 +190,7 @@ fn seq_strategy() -> impl Strategy<Value = Vec<EvSpec>> {
 
 fn run(ctx: &Ctx) {
     ctx.run_regress::<Case, _>(check);
-    let strat = || Box::new((seq_strategy(), prop::sample::select(vec![b' ', b'\t', b'\n']), 0u8..10, (1u8..9, any::<u64>())).prop_map(|(events, indent_char, indent_size, sink)| Case { events, indent_char, indent_size, sink }));
+    let strat = || Box::new((seq_strategy(), prop::sample::select(vec![b' ', b'\t', b'\n']), 0u8..10, ((1u8..25, any::<bool>()).prop_map(|(m, v)| m | if v { 0x80 } else { 0 }), any::<u64>())).prop_map(|(events, indent_char, indent_size, sink)| Case { events, indent_char, indent_size, sink }));
     ctx.run_proptest_with("event-sequences", ctx.tier.pick(300_000, 4_000_000), strat, check);
     super::c19_serde::run(ctx);
 }
